@@ -129,6 +129,9 @@ var qi, qj, qk int
 // the index of the element processed last (-1 before the first iteration).
 var rangeindex int
 
+// iter names, in a loop invariant, the number of iterations completed so far (however the loop is written).
+var iter int
+
 func forall(v int, lo, hi int, body bool) bool { return body }
 func exists(v int, lo, hi int, body bool) bool { return body }
 
@@ -212,6 +215,9 @@ func metricsOnly(m ...any) bool          { return true }
 
 // hasKey(m, k): map m has an entry for k. cur(x): the current value of a reassigned parameter / local.
 func hasKey[K comparable, V any](m map[K]V, k K) bool { _, ok := m[k]; return ok }
+
+// captured[T](): the one variable of type T captured by the closure under contract.
+func captured[T any]() T { var z T; return z }
 
 // bufWrites(b) / bufLen(b): ghost counters of a bytes.Buffer (Write calls, bytes written).
 func bufWrites(b any) int { return 0 }
